@@ -68,3 +68,42 @@ func (v *VFS) List() []string {
 	sort.Strings(l)
 	return l
 }
+
+// ---- file handles for the sealing scenario: a handle is a distinct *os.File the model maps to a name
+
+var vHandles = map[*os.File]string{}
+
+func (v *VFS) Create(name string) (*os.File, error) {
+	v.mut()
+	v.Files[name] = true
+	h := new(os.File)
+	vHandles[h] = name
+	return h, nil
+}
+func (v *VFS) Seek(h *os.File, off int64, whence int) (int64, error) { return off, nil }
+func (v *VFS) Sync(h *os.File) error                                  { return nil }
+func (v *VFS) Close(h *os.File) error                                 { return nil }
+func (v *VFS) RenameFile(h *os.File, newName string) error {
+	err := v.Rename(vHandles[h], newName)
+	if err == nil {
+		vHandles[h] = newName
+	}
+	return err
+}
+func (v *VFS) Reopen(name string) (*os.File, error) {
+	if !v.Files[name] {
+		return nil, fs.ErrNotExist
+	}
+	h := new(os.File)
+	vHandles[h] = name
+	return h, nil
+}
+func (v *VFS) StatFile(h *os.File) (os.FileInfo, error) { return vFileInfo{vHandles[h]}, nil }
+
+// vSkipWrite stands for the writing of file content, which the name-level model does not hold.
+func vSkipWrite(args ...any) error { return nil }
+
+// VerifMarkNonEmpty makes a freshly created active fraction sealable (Seal refuses an empty one).
+func VerifMarkNonEmpty(a *Active) {
+	a.info.From, a.info.To, a.info.DocsTotal = 1, 1, 1
+}
